@@ -14,7 +14,7 @@
    [stat_sim] / [obs_sim]: equality, except that the specification reports 0 for the size of a directory (in a
    FileInfo, and in every entry of a directory listing). *)
 From Avfs Require Import Base PathModel PathSpec PathProofs PathCleanProofs PathIterProofs.
-From Avfs Require Import MemFS MemFile World Posix Inv WalkBridge WalkSym WalkBudget WalkReadlink WalkRel StepEq WalkInv.
+From Avfs Require Import MemFS MemFile World Posix Inv WalkBridge WalkSym WalkBudget WalkReadlink WalkRel StepEq WalkInv StepInv.
 
 Theorem C01_step_stat : forall (s : fsys) (sv : sview) (cs : list str),
   step_hyps s sv -> path_ok s sv SlStat cs ->
@@ -189,3 +189,34 @@ Theorem C01_history : forall (vi : nat) (cs : list call) (w : world) (sw : sworl
   Forall2 obs_sim (snd (impl_run w cs)) (snd (spec_run sw cs))
   /\ absw (fst (impl_run w cs)) vi (fst (spec_run sw cs)).
 Proof. exact history_world. Qed.
+
+(* [links_ok] = named links have cleaned targets + a symbolic link has one name: kept by every covered call *)
+Theorem C01_links_ok_step : forall (vi : nat) (sw : sworld) (c : call),
+  covered vi sw c -> ptr_valid (f_heap (sw_fs sw)) -> links_ok (f_heap (sw_fs sw)) ->
+  links_ok (f_heap (sw_fs (fst (spec_step true sw c)))) /\ sw_sv (fst (spec_step true sw c)) = sw_sv sw.
+Proof. exact links_ok_spec_step. Qed.
+
+(* THE HISTORY THEOREM ON THE STATES OF C05.  Start from any world satisfying the invariant [Inv] of C05 (every world
+   reachable from the initial one does: C05_reach) whose links are [links_ok], seen by the administrator; let every
+   call of the history be covered ([call_ok]: the per-call premises - clean absolute paths, the listed deviation
+   classes, the two model-fuel conditions - which may themselves assume the hypotheses on the state).  Then, call by
+   call, the implementation model and the specification give the same results, the file systems stay equal, and
+   [Inv] and [links_ok] hold again at the end: no hypothesis on intermediate states is left. *)
+Theorem C01_history_inv : forall (vi : nat) (cs : list call) (w : world) (sw : sworld),
+  Inv w -> absw w vi sw -> us_admin (v_user (sv_view (sw_sv sw))) = true -> links_ok (f_heap (w_fs w)) ->
+  call_ok_run vi sw cs ->
+  Forall2 obs_sim (snd (impl_run w cs)) (snd (spec_run sw cs))
+  /\ absw (fst (impl_run w cs)) vi (fst (spec_run sw cs))
+  /\ Inv (fst (impl_run w cs)) /\ links_ok (f_heap (w_fs (fst (impl_run w cs)))).
+Proof. exact history_inv. Qed.
+
+(* non-vacuity: a world with every kind of link satisfies Inv (decided by inv_check) and links_ok, and the theorem
+   applies to a history on it *)
+Example C01_history_inv_example :
+  Inv StepExamples.w_tree /\ links_ok (f_heap (w_fs StepExamples.w_tree))
+  /\ Forall2 obs_sim (snd (impl_run StepExamples.w_tree StepExamples.hist))
+                     (snd (spec_run StepExamples.sw_tree StepExamples.hist)).
+Proof.
+  split; [exact StepInvExamples.tree_inv|]. split; [exact StepInvExamples.tree_links_ok|].
+  exact (proj1 StepInvExamples.hist_inv).
+Qed.
